@@ -1,7 +1,7 @@
 (* C19 — property theorems only.  Each is closed by [exact] of a lemma from
    Proofs.v / ProofsWf.v / ProofsEx.v; the driver pins the statements with
    [Check] and prints the assumptions on every run. *)
-From Yv Require Import Common.Base C19.Model C19.Spec C19.Run C19.Proofs C19.ProofsWf C19.ProofsEx.
+From Yv Require Import Common.Base C19.Model C19.Spec C19.Wait C19.Run C19.Proofs C19.ProofsWf C19.ProofsEx C19.ProofsWait.
 
 (* descriptor allocation: the least descriptor >= m that is not in the table *)
 Theorem lowest_free_spec : forall t m, (m <= lowest_free t m)%N /\ fd_mem t (lowest_free t m) = false /\ (forall k, (m <= k < lowest_free t m)%N -> fd_mem t k = true).
@@ -208,6 +208,58 @@ Proof. exact death_at_unblock_l. Qed.
 Theorem subshell_notify_only : forall p, strip (notify p) = strip p.
 Proof. exact strip_notify. Qed.
 
+(* several children alive together: what wait reports is a terminated, not yet reported child with exactly that status; it is reaped, nothing else changes *)
+Theorem wait_reports_zombie : forall s t s' k w, wstep s (WWait t) = (s', WRGot k w) -> exists c, nth_error (w_ch s) k = Some c /\ c_st c = CZomb w /\ nth_error (w_ch s') k = Some (with_st c CReaped) /\ w_k s' = w_k s /\ forall j, j <> k -> nth_error (w_ch s') j = nth_error (w_ch s) j.
+Proof. exact wait_reports_zombie_l. Qed.
+
+(* wait(-1) reports a terminated child iff one exists *)
+Theorem wait_any_iff : forall s, (exists k w, snd (wstep s (WWait None)) = WRGot k w) <-> (exists c, In c (w_ch s) /\ zomb_of c <> None).
+Proof. exact wait_any_iff_l. Qed.
+
+(* ... the oldest one (Linux; POSIX leaves the choice open) *)
+Theorem wait_oldest_first : forall s s' k w, wstep s (WWait None) = (s', WRGot k w) -> forall j c, j < k -> nth_error (w_ch s) j = Some c -> zomb_of c = None.
+Proof. exact wait_oldest_first_l. Qed.
+
+(* wait(-1) fails with ECHILD iff every child has been reaped (or there is none) *)
+Theorem wait_any_echild_iff : forall s, snd (wstep s (WWait None)) = WRNoChild <-> (forall c, In c (w_ch s) -> is_reaped c = true).
+Proof. exact wait_any_echild_iff_l. Qed.
+
+(* a child that wait has reported is never reported a second time, whatever the parent and the children do in between and afterwards *)
+Theorem never_reported_twice : forall s ops1 ops2 k w w', In (WRGot k w) (snd (wrun s ops1)) -> ~ In (WRGot k w') (snd (wrun (fst (wrun s ops1)) ops2)).
+Proof. exact never_reported_twice_l. Qed.
+
+(* in every run from every state each child is reported at most once *)
+Theorem at_most_one_report : forall ops s k, count_got k (snd (wrun s ops)) <= 1.
+Proof. exact at_most_one_report_l. Qed.
+
+(* a call in which child k dies (exit, fatal signal, death inside sigprocmask): SIGCHLD goes to the parent, the child is a zombie, its siblings are untouched - whatever process group the child is in *)
+Theorem child_death_notifies_parent : forall s k c cmd, nth_error (w_ch s) k = Some c -> is_run c = true -> snd (wstep s (WCmd k cmd)) = WR RSkip -> w_k (fst (wstep s (WCmd k cmd))) = notify_parent (w_k s) /\ (exists c', nth_error (w_ch (fst (wstep s (WCmd k cmd)))) k = Some c' /\ zomb_of c' <> None) /\ (forall j, j <> k -> nth_error (w_ch (fst (wstep s (WCmd k cmd)))) j = nth_error (w_ch s) j).
+Proof. exact child_death_notifies_parent_l. Qed.
+
+(* a parent that catches SIGCHLD and does not block it has caught it after the notification *)
+Theorem notify_parent_caught : forall k, get_disp (g_disp (p_sig (k_cur k))) sigchld = DCatch -> mem_n sigchld (g_mask (p_sig (k_cur k))) = false -> mem_n sigchld (g_caught (p_sig (k_cur (notify_parent k)))) = true.
+Proof. exact notify_parent_caught_l. Qed.
+
+(* a child in a process group of its own dies inside its sigprocmask call while siblings live: the parent has caught SIGCHLD and wait(-1) reports this child and the signal *)
+Theorem unblock_death_own_group : forall s k c sig, nth_error (w_ch s) k = Some c -> c_st c = CRun -> c_own c = true -> c_mask c = [sig] -> c_pend c = [sig] -> (sig < 5)%N -> (forall j cj, j < k -> nth_error (w_ch s) j = Some cj -> zomb_of cj = None) -> get_disp (g_disp (p_sig (k_cur (w_k s)))) sigchld = DCatch -> mem_n sigchld (g_mask (p_sig (k_cur (w_k s)))) = false -> let s1 := fst (wstep s (WCmd k (CMask 1 [sig]))) in snd (wstep s (WCmd k (CMask 1 [sig]))) = WR RSkip /\ mem_n sigchld (g_caught (p_sig (k_cur (w_k s1)))) = true /\ snd (wstep s1 (WWait None)) = WRGot k (WSignaled sig).
+Proof. exact unblock_death_own_group_l. Qed.
+
+(* Model.v: a child that dies inside its sigprocmask call - whatever its process group, also when its parent is a waiting child that leads no group - has SIGCHLD sent to its parent, which catches it; the processes above the parent are untouched *)
+Theorem unblock_death_sigchld_to_parent_only : forall s parent rest sig, k_skip s = None -> k_susp s = parent :: rest -> g_mask (p_sig (k_cur s)) = [sig] -> g_pend (p_sig (k_cur s)) = [sig] -> get_disp (g_disp (p_sig (k_cur s))) sig = DDefault -> (sig < 5)%N -> get_disp (g_disp (p_sig parent)) sigchld = DCatch -> mem_n sigchld (g_mask (p_sig parent)) = false -> let s2 := fst (step (fst (k_sigmask s 1 [sig])) OExit) in mem_n sigchld (g_caught (p_sig (k_cur s2))) = true /\ k_susp s2 = rest /\ strip (k_cur s2) = strip parent.
+Proof. exact unblock_death_sigchld_to_parent_only_l. Qed.
+
+(* whatever the oracle of the wait stream accepts is a pair of equal result lists *)
+Theorem wait_oracle_complete : forall v r, wait_oracle v r = None -> wait_agree v r.
+Proof. exact wait_oracle_complete_l. Qed.
+
+(* if both systems behave like the model (inside the domain) the check reports 0 *)
+Theorem wait_oracle_sound : forall ops, whas_out (wmodel_obs ops) = false -> run_case (CWait ops (wmodel_obs ops) (wmodel_obs ops)) = 0%N.
+Proof. exact wait_oracle_sound_l. Qed.
+
+(* non-vacuity: two children alive together, the younger (own group) dies inside sigprocmask, the older exits later *)
+Example ex_wait_two_children : wmodel_obs ex_wait_ops = [WR (RDisp DDefault); WR (RSigs []); WR RUnit; WR RUnit; WRNone; WR RUnit; WR RUnit; WR (RSigs []); WRNone; WR RSkip; WR (RSigs [6%N]); WRNone; WRGot 1 (WSignaled 2); WRNone; WR RSkip; WR (RSigs [6%N]); WRNoChild; WRGot 0 (WExited 7); WRNoChild].
+Proof. exact ex_wait_run. Qed.
+
 Print Assumptions lowest_free_spec.
 Print Assumptions dup_lowest_free.
 Print Assumptions dup_shares_offset.
@@ -261,3 +313,16 @@ Print Assumptions open_existing_allowed.
 Print Assumptions exit_notifies_parent.
 Print Assumptions death_at_unblock.
 Print Assumptions subshell_notify_only.
+Print Assumptions wait_reports_zombie.
+Print Assumptions wait_any_iff.
+Print Assumptions wait_oldest_first.
+Print Assumptions wait_any_echild_iff.
+Print Assumptions never_reported_twice.
+Print Assumptions at_most_one_report.
+Print Assumptions child_death_notifies_parent.
+Print Assumptions notify_parent_caught.
+Print Assumptions unblock_death_own_group.
+Print Assumptions unblock_death_sigchld_to_parent_only.
+Print Assumptions wait_oracle_complete.
+Print Assumptions wait_oracle_sound.
+Print Assumptions ex_wait_two_children.
